@@ -7,7 +7,7 @@ CONSTANTS Tok, MaxExts
 
 VARIABLE p
 
-Tails == {"", ".", " ", "?q", "/b"}
+Tails == {"", ".", " ", "?q", "/b", "/", "/.", "//"}
 ExtSeqs == UNION { [1..n -> Tok] : n \in 0..MaxExts }
 \* the full cross product for <= 1 extension; for 2..MaxExts extensions only chains ending in a
 \* compression token or starting with one (what compound handling can confuse)
